@@ -570,32 +570,64 @@ def compress(ops):
     return ['%s x%d' % (o, n) if n > 1 else o for o, n in out]
 
 
-def check_clean(acc, world, exp, tmpdir, model_fn):
-    """`-c`: the data files of the selected experiments are emptied, the others untouched"""
+def check_clean(acc, world, exp, tmpdir, model_fn, filters=(), extra=(), fail=()):
+    """`-c`: every data file of the selected experiments is emptied - also one that receives no new
+    data point in this session (its runs fail, are filtered out, or nothing is executed: -E) -, the
+    data files of experiments that are not selected are untouched.
+    (docs/usage.md: "-c, --clean  Discard old data from the data file (configured in the run
+    description)"; actual behaviour, modelled: the files of the experiments compiled for the session,
+    i.e. chosen by the experiment name, whatever the run filters are.)"""
     params = world.params
-    sel = select(params, exp, [])
-    inp = {'params': params, 'experiment': exp, 'option': '-c'}
+    filters, extra, fail = list(filters), list(extra), sorted(fail)
+    sel = select(params, exp, filters)
+    compiled = select(params, exp, [])
+    inp = {'params': params, 'experiment': exp, 'option': '-c', 'filters': filters, 'extra_options': extra,
+           'failing_executors': fail}
     world.reset()
-    res = drive_fs.run_traced(session_fn(world, ['-c'], exp, []), world.paths, tmpdir)
+    exe_file = {'E': 'exe', 'E2': 'exe2', 'E3': 'exe3'}
+    world.scn.fail_exes = set(exe_file[e] for e in fail)
+    try:
+        res = drive_fs.run_traced(session_fn(world, ['-c'] + extra, exp, filters), world.paths, tmpdir)
+    finally:
+        world.scn.fail_exes = set()
     acc.impl_traces += 1
     acc.count('clean')
-    acc.case(nontrivial_key=(str(params), exp, '-c'), sample=inp)
+    cleaned = sorted(set(file_of(params, world.keys[k]) for k in compiled))
+    executes = '-E' not in extra
+    ok_runs = [k for k in sel if world.keys[k][2] not in fail] if executes else []
+    gets_data = set(file_of(params, world.keys[k]) for k in ok_runs)
+    for f in cleaned:
+        acc.count('clean:file-%s' % ('receives-new-data' if f in gets_data else 'receives-no-data'))
+    acc.case(nontrivial_key=(str(params), exp, '-c', tuple(filters), tuple(extra), tuple(fail)), sample=inp)
     if res['exit'] != 'ok':
         acc.disagree('c14: traced child did not finish', inp, res, None, THEOREMS)
         return
-    cleaned = sorted(set(file_of(params, world.keys[k]) for k in sel))
     answers = model_fn([{'op': 'c14.clean', 'text': world.old[f]} for f in cleaned])
     status = res['result']['status']
     if status.startswith('crash') or status in ('ui_error', 'thread_exc'):
         acc.oracle_fail('no_error', inp, {'status': status, 'crash': res['result']['crash']}, {'option': '-c', 'status': status})
         return
+    old_serials = {}
     for f in world.files:
-        snap = res['snapshots'].get(os.path.join(world.scn.wd, f))
+        old_serials[f] = set(d['serial'] for d in dd.parse_file(world.old[f]) if d['kind'] in ('meas', 'prof'))
+    for f in world.files:
+        p = os.path.join(world.scn.wd, f)
+        snap = res['snapshots'].get(p)
+        final = res['finals'].get(p)
         want = '' if f in cleaned else world.old[f]
+        sig = {'option': '-c', 'file_selected': f in cleaned,
+               'file_receives_new_data': f in gets_data}
         if snap != want:
             acc.oracle_fail('clean_empties', inp, {'file': f, 'expected_len': len(want),
-                                                   'got_len': None if snap is None else len(snap)},
-                            {'option': '-c', 'file_selected': f in cleaned})
+                                                   'got_len': None if snap is None else len(snap)}, sig)
+        elif f in cleaned:
+            # and nothing of the old content is in the file when the session is over
+            left = [d['serial'] for d in dd.parse_file(final or '')
+                    if d['kind'] in ('meas', 'prof') and d['serial'] in old_serials[f]]
+            if left or (f not in gets_data and (final or '') != ''):
+                acc.oracle_fail('clean_empties', inp, {'file': f, 'old_lines_left': len(left),
+                                                       'final_len': None if final is None else len(final)},
+                                dict(sig, at='end_of_session'))
     for f, ans in zip(cleaned, answers):
         snap = res['snapshots'].get(os.path.join(world.scn.wd, f))
         if snap != ans['content']:
@@ -609,9 +641,22 @@ def check_clean(acc, world, exp, tmpdir, model_fn):
     for (exe, bench) in res['result']['starts']:
         k = world.key_of(exe, bench)
         started[k] = started.get(k, 0) + 1
-    want_started = {k: params['invocations'] for k in sel}
+    want_started = {k: params['invocations'] for k in ok_runs}
     if started != want_started:
         acc.oracle_fail('regenerates', inp, {'started': started, 'expected': want_started}, {'option': '-c'})
+
+
+def clean_variants(params):
+    """(experiment, filters, extra options, failing executors): files that receive new data and
+    files that do not"""
+    u, v = params['u'], params.get('v')
+    out = [(None, [], [], []), ('all', [], [], []), ('all', [], ['-E'], []), (None, [], [], ['E'])]
+    if u:
+        out += [('U', [], [], []), ('all', [], [], ['E2']), ('all', ['e:E'], [], []),
+                ('all', ['s:S:' + params['t'][0]], [], ['E'])]
+    if v:
+        out += [('V', [], [], ['E3']), ('all', ['e:E3', 'e:E'], [], ['E']), ('all', [], [], ['E', 'E3'])]
+    return out
 
 
 class _ModelOnly(object):
@@ -666,8 +711,8 @@ def scenario_job(job):
         mans += model(mops[k:k + 40])
     for o, a in zip(mobs, mans):
         judge_multi(acc, world, o, a)
-    for exp in ([None, 'all'] + (['U'] if params['u'] else []) + (['V'] if params.get('v') else [])):
-        check_clean(acc, world, exp, my_same, model)
+    for (exp, filters, extra, fail) in clean_variants(params):
+        check_clean(acc, world, exp, my_same, model, filters, extra, fail)
     shutil.rmtree(world.scn.wd, ignore_errors=True)
     return acc
 
@@ -708,7 +753,8 @@ def run_case_file(ck, acc, w, idx, tmp_same, tmp_shm):
         return
     tmpdir = tmp_shm if w.get('tmp') == 'other_fs' else tmp_same
     if w.get('option') == '-c':
-        check_clean(acc, world, w.get('experiment'), tmpdir, ck.model)
+        check_clean(acc, world, w.get('experiment'), tmpdir, ck.model, w.get('filters', []),
+                    w.get('extra_options', []), w.get('failing_executors', []))
         return
     cp = None
     if w.get('crash_before_call') is not None:
@@ -784,6 +830,7 @@ def replay(ck, data):
     try:
         w = {'params': inp['params'], 'experiment': inp.get('experiment'), 'filters': inp.get('filters', []),
              'tmp': inp.get('tmp', 'same_fs'), 'option': inp.get('option'),
+             'extra_options': inp.get('extra_options', []), 'failing_executors': inp.get('failing_executors', []),
              'crash_before_call': inp.get('crash_before_call'), 'call': inp.get('call'), 'nth': inp.get('nth', 0)}
         run_case_file(ck, acc, w, 0, tmp_same, tmp_shm)
     finally:
